@@ -673,7 +673,7 @@ def bip38_intermediate_password(passphrase, lot=None, sequence=None, owner_salt=
     return pubkeyhash_to_addr_base58(magic + owner_entropy + HDKey(pass_factor).public_byte, prefix=b'')
 
 
-def bip38_create_new_encrypted_wif(intermediate_passphrase, compressed=True, seed=os.urandom(24),
+def bip38_create_new_encrypted_wif(intermediate_passphrase, compressed=True, seed=None,
                                    network=DEFAULT_NETWORK):
     """
     Create new encrypted WIF BIP38 EC multiplied key. Use :func:`bip38_intermediate_password` to create an
@@ -692,7 +692,7 @@ def bip38_create_new_encrypted_wif(intermediate_passphrase, compressed=True, see
 
     """
 
-    seed_b = to_bytes(seed)
+    seed_b = os.urandom(24) if seed is None else to_bytes(seed)
     intermediate_password_bytes = change_base(intermediate_passphrase,58, 256)
     check = intermediate_password_bytes[-4:]
     intermediate_decode = intermediate_password_bytes[:-4]
